@@ -164,6 +164,11 @@ func (r *Report) finish() int {
 		if res.Unit != nil && res.Unit.coverStatus == "unsat" {
 			undecided = append(undecided, "vacuity: the entry assumptions (requires/type invariants) of "+res.Key+" are contradictory")
 		}
+		if res.Unit != nil {
+			for _, v := range res.Unit.vacuous {
+				undecided = append(undecided, "vacuity: "+v)
+			}
+		}
 		if res.Err != "" {
 			undecided = append(undecided, res.Err)
 		}
